@@ -7,7 +7,7 @@
 (* computed here from the definitions (Kemeny.tla, Positional.tla,         *)
 (* LocalSearch.tla), never by the harness.                                 *)
 (***************************************************************************)
-EXTENDS Kemeny, Scheme, Positional, LocalSearchDefs, Partition, PickScanDefs, Json, IOUtils
+EXTENDS Kemeny, Scheme, Positional, BioFull, Partition, PickScanDefs, Json, IOUtils
 
 VARIABLES i, verdict
 
@@ -121,6 +121,11 @@ Verdict(rec) ==
                ELSE IF ~Got THEN <<"skip", rec.out>>
                ELSE IF ~WF THEN <<"skip", "malformed-consensus">>
                ELSE IF \E k \in DOMAIN K : ~LocalOpt(K[k], C, U, Unit) THEN <<"viol", "C08:local-optimum">>
+               \* beyond the property: without starting algorithms the returned rankings are exactly those of the
+               \* transcribed algorithm (BioFull.tla: departures, scan order, selection) - a difference is drift
+               ELSE IF Aux.biofull = 1 /\ ~HasStarters(rec.cfg) /\ ~Big /\ n <= 6 /\ Len(D) <= 8 /\ IdsUsable(rec.ids, U)
+                       /\ Range(K) # BioResult(D, U, C, rec.ids, rec.flag = 1, Unit \div 1000)
+                    THEN <<"drift", "bioconsert-result-differs-from-the-transcribed-algorithm">>
                ELSE <<"ok", "localopt">>
         \* ------------------------------------------------------------ C09
         St    == IF HasStarters(rec.cfg) THEN {RkOfJson(rec.starts[s]) : s \in DOMAIN rec.starts}
